@@ -488,11 +488,54 @@ func cmdArena(args []string) {
 		}
 	}
 	bt := parseBattery(*bat)
+	// Range of a collation tree has no map-level meaning, but it must not depend on what the caller does with the
+	// buffers of the bounds after Range has returned: the same call, once with untouched private bounds and once with
+	// bounds whose buffers are overwritten before the sequence is ranged over
+	sameRange := func() {
+		if d.HasRange() || rec.Dead {
+			return
+		}
+		nk := len(uni)
+		a, b := 1+r.Intn(nk), 1+r.Intn(nk)
+		if r.Intn(3) == 0 {
+			b = a
+		}
+		collect := func(scribble bool) (ks []int) {
+			guard(func() {
+				s := d.Seq("RangeAny", a, b, 0)
+				if scribble {
+					flush()
+				} else {
+					cur = cur[:0]
+				}
+				for k := range s {
+					ks = append(ks, k)
+				}
+			})
+			return
+		}
+		saved := mode
+		mode = 1 // private exact copies
+		x := collect(false)
+		mode = []int{0, 2, 3, 5}[r.Intn(4)]
+		y := collect(true)
+		mode = saved
+		tr.start("Same")
+		tr.fStr("what", "Range")
+		tr.fInt("a", a)
+		tr.fInt("b", b)
+		tr.fInts("x", x)
+		tr.fInts("y", y)
+		tr.emit()
+	}
 	for h := 0; h < *n; h++ {
 		if h > 0 {
 			rec.Clear()
 		}
 		for i := 0; i < *length && !rec.Dead; i++ {
+			if i%3 == 2 {
+				sameRange()
+			}
 			if i%4 == 0 || r.Intn(3) == 0 {
 				mode = r.Intn(6) // runs of consecutive calls in the same idiom (scanner buffer reused key after key)
 			}
@@ -524,7 +567,7 @@ func cmdConc(args []string) {
 	g := fs.Int("g", 8, "")
 	length := fs.Int("len", 400, "")
 	procs := fs.Int("procs", 4, "")
-	shared := fs.String("shared", "alpha/string:fan2,uint16:random,float64:random", "kinds of the shared read-only trees")
+	shared := fs.String("shared", "alpha/string:fan2,uint16:random,float64:random,alpha/string:long,alpha/bytes:vlong", "kinds of the shared read-only trees")
 	stats := fs.String("stats", "", "")
 	fs.Parse(args)
 	runtime.GOMAXPROCS(*procs)
@@ -754,6 +797,10 @@ func cmdMem(args []string) {
 					for range d.Seq("Range", k, 1+r.Intn(len(uni)), 0) {
 						break
 					}
+				} else if !d.HasRange() {
+					for range d.Seq("RangeAny", k, 1+r.Intn(len(uni)), 0) {
+						break
+					}
 				}
 			default:
 				d.Search(k)
@@ -850,6 +897,24 @@ func cmdMem(args []string) {
 		}, func(n int) {
 			for i := 0; i < n; i++ {
 				bt.Delete(fmt.Sprintf("key/%02x/%04x", i%251, i))
+			}
+		}, bt)
+	case "alpha/bytes":
+		// groups of one short key and two keys below a long compressed path; the short sibling is deleted first
+		bt := art.NewAlphaSortedTree[[]byte, int]()
+		bulk(func(n int) {
+			for i := 0; i < n/8; i++ {
+				g := fmt.Sprintf("G%05x", i)
+				bt.Insert([]byte(g+"a"), i)
+				bt.Insert([]byte(g+"b0123456789xy1"), i)
+				bt.Insert([]byte(g+"b0123456789xy2"), i)
+			}
+		}, func(n int) {
+			for i := 0; i < n/8; i++ {
+				g := fmt.Sprintf("G%05x", i)
+				bt.Delete([]byte(g + "a"))
+				bt.Delete([]byte(g + "b0123456789xy1"))
+				bt.Delete([]byte(g + "b0123456789xy2"))
 			}
 		}, bt)
 	case "uint64":
